@@ -210,6 +210,39 @@ func run(cfg lib.Cfg) error {
 		p := params{name: fmt.Sprintf("corpus-receipts-plan-log-%d", v), shape: "logr", addrFlt: v == 1, batch: 2 + v, conc: 1 + v%2, start: 1, head: 9, seed: uint64(41 + v), real: v >= 2}
 		judge(scenario(p, r.Fork()), "corpus-receipts-plan-log")
 	}
+	// corpus: TWO active filters - a positive log_addr filter and a filter on event input "to" -
+	// under the DEFAULT aggregation (filter_agg omitted = OR; the declaration is stored in
+	// shovel.integrations as the dashboard stores it: ValidateFix, which rewrites an omitted
+	// filter_agg to "or", only runs on the file), and under explicit "or" / "and" from the
+	// file.  Transfers emitted by OTHER contracts to an accepted recipient belong to the
+	// table under OR: the address list must not be pushed down to eth_getLogs then.
+	// Logs-only and header plans, scripted source and real client.
+	for v, c := range []struct {
+		shape string
+		agg   string
+		db    bool
+		real  bool
+	}{
+		{"lognh", "", true, true},
+		{"log", "", true, true},
+		{"lognh", "", true, false},
+		{"log", "or", false, true},
+		{"lognh", "and", false, true},
+		{"log", "and", true, false},
+	} {
+		sc := &ts.Scenario{Name: fmt.Sprintf("corpus-two-filters-%d-%s-agg-%s", v, c.shape, map[string]string{"": "omitted", "or": "or", "and": "and"}[c.agg]), Seed: uint64(51 + v), Head: 9, Real: c.real,
+			Gen:  ts.GenOpts{MaxTxs: 3, MaxLogs: 5, Decoys: true, EmptyProb: 0, OtherEvery: 2},
+			Srcs: []ts.SrcSpec{{Name: "main", ChainID: 1, Batch: 2 + v%3, Conc: 1 + v%2, URL: "http://main.invalid"}},
+			IGs: []ts.IGSpec{{Name: "ig1", Shape: c.shape, Table: "t1", AddrFlt: true, OrTo: true, Agg: c.agg,
+				Sources: []ts.SrcRef{{Name: "main", Start: 1}}}}}
+		if c.db {
+			sc.DBRows = []ts.DBRow{{Name: "ig1", Copies: 1, OmitAgg: c.agg == ""}}
+		}
+		sc.Acts = append(sc.Acts, ts.Steps(1, 3)...)
+		sc.Acts = append(sc.Acts, ts.Act{Do: "grow", K: 3})
+		sc.Acts = append(sc.Acts, ts.Steps(1, 6)...)
+		judge(sc, "corpus-two-filters")
+	}
 	// corpus: an event with a selected string[] argument whose elements are sometimes empty
 	// (the decode buffer of the integration is reused from log to log: an empty element after
 	// a non-empty one in the same row slot must come out empty)
